@@ -354,7 +354,39 @@ fn sk_load(data: &[u8], gid: u32, ppem: u32, mode: Option<Mode>) -> Result<Strin
     Ok(out.join(" "))
 }
 
+/// the CFF hinter's scale `(scale + 32) / 64`: the two source expressions (cff/mod.rs: plain i32 `+` and `/`;
+/// psft.c: `ADD_INT32( x_scale, 32 ) / 64`, wrapping add, truncating division) evaluated as written on every
+/// scale the size grid produces and on boundary values, against Model/CffScale.lean.  Neither library exposes
+/// the value: the tie of the REAL code at this step is the hinted-CFF differential (layers G, H: scales with
+/// low six bits >= 32 occur at most sizes, e.g. 11 ppem / 1000 upem = 46137), which is an oracle.
+fn cff_scale(s: &mut Session) {
+    let mut scales: Vec<i64> = vec![];
+    for upem in [1000i64, 1024, 2048, 256, 16384] {
+        for ppem in 4..=100i64 {
+            scales.push(unsafe { FT_DivFix((ppem * 64) as c_long, upem as c_long) } as i64);
+        }
+    }
+    for b in boundary_i32() {
+        scales.push(b as i64);
+    }
+    for k in 0..130i64 {
+        scales.extend([k, -k, 65536 + k, i32::MAX as i64 - k, i32::MIN as i64 + k]);
+    }
+    for v in scales {
+        let x = v as i32;
+        let sk = catch(|| (x + 32) / 64);
+        s.case("sk.cffscale", format!("sk.cffscale {x}"), trap_or(sk.clone()));
+        let ft = ((x as u32).wrapping_add(32) as i32) / 64;
+        s.case("ft.cffscale", format!("ft.cffscale {x}"), ft.to_string());
+        s.count(if x >= 0 && x % 64 >= 32 { "cffscale:rounds-up" } else { "cffscale:other" });
+        if let Ok(v) = sk {
+            s.oracle("kernel:cff-hint-scale", v == ft, || format!("scale {x}"), || format!("skrifa {v} freetype {ft}"));
+        }
+    }
+}
+
 pub fn run(cfg: &Config, s: &mut Session) {
+    cff_scale(s);
     let mut rng = Rng::new(cfg.seed ^ 0x10AD);
     let lib = freetype::Library::init().unwrap();
     let n_fonts = if cfg.thorough() { 300 } else { 40 };
